@@ -18,12 +18,12 @@
 /// logic.
 
 #[test]
-fn kani_concrete_playback_c12_key_plain_2_12676758738023031427() {
+fn kani_concrete_playback_c12_key_plain_2_16557542712472710690() {
     let concrete_vals: Vec<Vec<u8>> = vec![
-        // 112
-        vec![112],
-        // 32
-        vec![32],
+        // 95
+        vec![95],
+        // 50
+        vec![50],
     ];
     kani::concrete_playback_run(concrete_vals, c12_key_plain_2);
 }
